@@ -17,7 +17,8 @@
   `StrictMonoOn` or `StrictAntiOn` on any `[u,v]` of the hull that stays `2·tol` beyond the last
   boundary before the cut and `2·tol` before the first boundary after it.
   Not claimed: the `2·tol` neighbourhoods of the boundaries, the two `tol`-wide end strips.
-  Non-vacuity: every hypothesis is discharged on the same kernel-evaluated run (`fineGrid`, `exG`):
+  Non-vacuity: `C11FinalEx.fine_middle_piece_strictAnti` applies the theorem to the kernel-evaluated run
+  (`fineGrid`, `exG`) with every hypothesis discharged:
   `C11Mono.fine_run`, `fine_cellHyp`, `C11Simple.fine_gridNonzero`, `fine_zerosSeparated`,
   `fine_second_deriv` (simple zeros), `C11Glue.fine_inHull` and the examples at the end of those files.
 -/
